@@ -81,7 +81,8 @@ def formula_cases(draw, tier):
     elif det == "MovingWindow":
         bw = draw(st.integers(msl, 40))
         case["n"] = draw(st.integers(2 * bw + 1, 2 * bw + 300))
-        case["params"] = {"bandwidth": bw, "threshold_scale": scale, "level": draw(st.one_of(st.sampled_from([0.01, 0.05, 0.3]), st.floats(1e-6, 0.9)))}
+        case["params"] = {"bandwidth": bw, "threshold_scale": scale, "level": draw(st.one_of(st.sampled_from([0.01, 0.05, 0.3, 0.999, 0.9999, 1 - 1e-9, 1e-12]), st.floats(1e-6, 0.9),
+                                                  st.floats(0.9, 1 - 1e-6)))}
         if scorer is not None:
             case["params"]["change_score"] = scorer
     else:
@@ -202,7 +203,8 @@ def check_tuned(case):
 NS = [2, 3, 5, 10, 17, 100, 1000, 12345, 100000]
 PS = list(range(1, 13)) + [16, 20, 24, 26, 28, 30, 31, 32, 33, 40, 64]
 KS = [1, 2, 3, 5]
-SCALES = [0.0, 0.5, 1.0, 2.5]
+# each scale is followed, later in the same process, by one that agrees with it to six significant digits
+SCALES = [0.0, 0.5, 1.0, 2.5, 2.5 * (1 + 4e-7), 1.0 + 3e-7, 0.5000002, 5e-324]
 
 
 def family_cells(tier):
